@@ -209,6 +209,35 @@ def run(rep, tier, seed, keep=False):
                 ok, b1, b2 = 1, r_[1].args[0].value, r_[1].args[1].value
             add({'act': 'quote2', 'style1': s1, 'style2': s2, 'v1': cps(v1), 'v2': cps(v2), 'sp1': cps(sp1), 'sp2': cps(sp2), 'ok': ok,
                  'back1': cps(b1), 'back2': cps(b2)}, 'expression %s -> %r' % (text, r_ if not ok else (b1, b2)))
+        # two numerals with equal values but different spellings (5 and 5.0): in one expression, and in two statements
+        def num_info(node, text):
+            if type(node).__name__ != 'Constant' or type(node.value) not in (int, float):
+                return 'other', [], 0
+            if type(node.value) is int:
+                return 'int', trace.enc_int(node.value)[2], 0
+            return 'float', [], 1 if repr(node.value) == repr(float(text)) else 0
+        nums = ['0', '1', '5', '7', '10', '42', '100', '255', '1000', '65536', '4294967296', '9007199254740993', '18446744073709551616']
+        variants = lambda n: [n, n + '.0', n + '.00', '0' + n if n != '0' else '00', n + '.5']
+        held = []
+        for n in nums:
+            vs = variants(n)
+            for t1 in vs:
+                for t2 in vs:
+                    if t1 == t2:
+                        continue
+                    r_ = eng.parse('[%s, %s]' % (t1, t2))
+                    if r_[0] == 'ok' and type(r_[1]).__name__ == 'ListExpression' and len(r_[1].args) == 2:
+                        i1, i2 = num_info(r_[1].args[0], t1), num_info(r_[1].args[1], t2)
+                    else:
+                        i1 = i2 = ('other', [], 0)
+                    add({'act': 'num2', 't1': cps(t1), 't2': cps(t2), 'k1': i1[0], 'k2': i2[0], 'limbs1': i1[1], 'limbs2': i2[1], 'fok1': i1[2], 'fok2': i2[2]},
+                        'expression [%s, %s] -> %r' % (t1, t2, r_))
+                    ra, rb = eng.parse(t1), eng.parse(t2)
+                    held.append((ra, rb))      # hosts cache parsed statements: earlier ones stay alive
+                    i1 = num_info(ra[1], t1) if ra[0] == 'ok' else ('other', [], 0)
+                    i2 = num_info(rb[1], t2) if rb[0] == 'ok' else ('other', [], 0)
+                    add({'act': 'num2', 't1': cps(t1), 't2': cps(t2), 'k1': i1[0], 'k2': i2[0], 'limbs1': i1[1], 'limbs2': i2[1], 'fok1': i1[2], 'fok2': i2[2]},
+                        'statements %s then %s (first held) -> %r, %r' % (t1, t2, ra, rb))
         # integers: 1..4000 digits (int-string limit is 4300 by default)
         lens = [1, 2, 3, 4, 5, 8, 9, 10, 11, 19, 20, 21, 39, 40, 41, 100, 1000, 4000, 4299, 4300] + [rng.randint(1, 4300) for _ in range(20 if quick else 300)]
         for L in lens:
